@@ -276,7 +276,7 @@ func runC05(t *simrt.Tape, o Opts) Outcome {
 		w = world.New(s, "C05")
 		st.Oracle = map[string]int{}
 		h := &hist{w: w, t: t, parts: world.Partitions[:1+t.Choose(3, "nparts")], maxProc: 2, samePolicyTimes: true}
-		h.gen = world.GenOpts{SmallCaps: t.Choose(3, "smallcaps") == 1, AllowTinyLFU: allowTinyLFU}
+		h.gen = world.GenOpts{SmallCaps: t.Choose(3, "smallcaps") == 1, AllowTinyLFU: allowTinyLFU, ZeroExpiry: true}
 		h.weights = [opKinds]int{opEncrypt: 10, opDecrypt: 2, opOpen: 1, opCloseSess: 1, opAdvance: 6, opRevoke: 3, opForeignRotate: 1, opRestart: 1, opNewProc: 1, opBurst: 1}
 		h.payloadClasses = []int{2}
 		skewed := t.Choose(4, "clock-skew") == 1
